@@ -81,7 +81,7 @@ _spec_hash = None
 
 
 # bump when the logic of a stage in check.py / stages_ext.py changes what a stage produces
-STAGE_VERSION = "8"
+STAGE_VERSION = "10"
 
 
 def spec_hash():
@@ -308,7 +308,8 @@ def stage_dump(tier, module="MC_Small.tla", base="MC_Dump", name="dump", segment
 EVICTING = {"insert", "mutate", "set_max_size"}
 PROMOTING = {"insert", "try_insert", "get", "get_entry", "get_lru", "touch", "mutate"}
 READ_OPS = {"peek", "peek_entry", "peek_lru", "peek_mru", "contains", "len", "is_empty",
-            "current_size", "max_size", "capacity", "debug", "iter", "keys", "values", "clone"}
+            "current_size", "max_size", "capacity", "debug", "iter", "keys", "values", "clone",
+            "clone_from"}
 CAP_OPS = {"reserve", "try_reserve", "shrink_to", "shrink_to_fit"}
 ITER_KINDS = {"iter", "keys", "values", "drain", "into_iter", "into_keys", "into_values"}
 ERR_TAGS = {"EntryTooLarge", "WouldEjectLru", "OccupiedEntry"}
@@ -348,13 +349,13 @@ def nontrivial_props(line, pre):
             props.add("C17")
     if op in CAP_OPS or ex.get("grew"):
         props.add("C13")
-    if op == "clone" or ex.get("nalive", 1) >= 2:
+    if op in ("clone", "clone_from") or ex.get("nalive", 1) >= 2:
         props.add("C14")                       # a clone, or any call while two caches live
     if op == "retain" and pre is not None and pre.get("ord"):
         props.add("C15")
     if op in READ_OPS and pre is not None and pre.get("ord"):
         props.add("C19")
-    if ex.get("ev") or ex.get("grew") or op in CAP_OPS or op == "clone":
+    if ex.get("ev") or ex.get("grew") or op in CAP_OPS or op in ("clone", "clone_from"):
         props.add("C20")                       # departures / rebuilds enter the bound
     return props
 
@@ -708,7 +709,7 @@ def stage_scale(tier):
 
 
 SELF_FACET_OWNERS = {
-    "trav": ["C07"], "bound": ["C01"], "es_eq_rec": ["C02"], "sum_rec": ["C02"], "len": ["C02"],
+    "trav": ["C07"], "bound": ["C01"], "bound_held": ["C01"], "es_eq_rec": ["C02"], "sum_rec": ["C02"], "len": ["C02"],
     "is_empty": ["C02"], "mirror": ["C07"], "keysiter": ["C07"], "vals_ok": ["C07"],
     "ptr_iter": ["C07"], "ptr_peek": ["C07"], "dead": ["C07"], "hook_cur": ["C07"], "lru": ["C05"],
     "mru": ["C05"], "nodup": ["C04"], "probe": ["C04"], "probe_ro": ["C19"], "anom": ["C06"],
@@ -796,6 +797,57 @@ def stage_asan(tier, script, segfiles=(), name="asan"):
                   os.environ.get("VERIF_SEED", "0"), go)
 
 
+def stage_roguard(tier, dump, name="roguard"):
+    """C19: every shared-reference operation of the tour is executed a second time with the
+    cache's own memory (table allocation + seal) mapped read-only (mprotect); a &self method
+    that writes - even one that restores what it wrote - kills the process with SIGSEGV."""
+    steps = 150000 if tier == "quick" else 1000000
+    script = dump["script"]
+
+    def go(d):
+        def one(i, hk):
+            def f():
+                h, k = hk
+                rog = os.path.join(d, "rog-%d" % i)
+                prog = os.path.join(d, "prog-%d" % i)
+                cmd = [os.path.join(BIN, "run"), "--script", script, "--hasher", h, "--keyform", k,
+                       "--universe", "3", "--roguard", rog, "--progress", prog, "--stop-after", str(steps)]
+                p = subprocess.run(cmd, stdout=subprocess.PIPE, stderr=subprocess.PIPE, text=True,
+                                   timeout=3600, preexec_fn=limits())
+                res = {"hasher": h, "keyform": k, "rc": p.returncode, "stderr": p.stderr[-400:]}
+                for key, path in (("in_window_step", rog), ("line", prog)):
+                    try:
+                        res[key] = int(open(path).read().strip() or 0)
+                    except Exception:
+                        res[key] = 0
+                try:
+                    res["summary"] = json.loads(p.stdout.strip().splitlines()[-1])
+                except Exception:
+                    res["summary"] = None
+                return res
+            return f
+        cfgs = [("const", "owned"), ("default", "borrowed")]
+        return {"runs": run_parallel([one(i, hk) for i, hk in enumerate(cfgs)], 2), "script": script}
+    return cached(name + "-" + tier, source_hash() + "-" + spec_hash() + "-" +
+                  os.environ.get("VERIF_SEED", "0"), go)
+
+
+def roguard_into(prop, res, fnd, cov):
+    windows = 0
+    for r in res["runs"]:
+        if r["summary"]:
+            windows += r["summary"].get("roguard_windows", 0)
+        if r["rc"] != 0 and r["in_window_step"] > 0:
+            ops = script_segment(res["script"], r["line"])
+            fnd.add("roguard:%s" % (ops[-1]["a"]["op"] if ops else "?"),
+                    "a shared-reference operation wrote to the cache's memory: with table and seal mapped "
+                    "read-only the process died (rc %s) inside %s at script line %s (%s/%s)" %
+                    (r["rc"], ops[-1]["a"]["op"] if ops else "?", r["line"], r["hasher"], r["keyform"]),
+                    {"kind": "replay", "hasher": r["hasher"], "keyform": r["keyform"], "universe": 3,
+                     "ops": ops, "facet": "roguard", "expected": "no write", "actual": "SIGSEGV"})
+    cov["readonly_windows"] = windows
+
+
 def asan_into(prop, res, fnd, cov, what):
     cov.setdefault("asan_channel", {})[what] = "unavailable" if not res.get("available") else "ran"
     if not res.get("available"):
@@ -869,7 +921,7 @@ def replay_owners(m):
             return ["C12"]
         return ["C04", "C03"]               # an entry was lost (or invented) outside any eviction
     table = {
-        "trav": ["C07"], "max": ["C01"], "bound": ["C01"], "cap": ["C13"], "b": ["C13"],
+        "trav": ["C07"], "max": ["C01"], "bound": ["C01"], "bound_held": ["C01"], "cap": ["C13"], "b": ["C13"],
         "es_eq_rec": ["C02"], "sum_rec": ["C02"], "len": ["C02"], "is_empty": ["C02"],
         "mirror": ["C07"], "keysiter": ["C07"], "vals_ok": ["C07"], "ptr_iter": ["C07"],
         "ptr_peek": ["C07"], "dead": ["C07"], "hook_cur": ["C07"], "lru": ["C05"], "mru": ["C05"],
@@ -1070,8 +1122,10 @@ def collect_core(prop, tier, fnd, cov):
     if prop == "C19":
         import stages_ext
         stages_ext.clone_crash_into(prop, tier, fnd, cov, sys.modules[__name__])
-    if prop in ("C01", "C02"):
-        # the bound / the sum of recorded sizes must also hold in whatever is used after a caught panic
+        roguard_into(prop, stage_roguard(tier, dump), fnd, cov)
+    if prop in ("C01", "C02", "C05", "C13"):
+        # the bound / the sum of recorded sizes / the order of what remains / the atomicity of a
+        # failing try_reserve must also hold around a caught panic or a refused allocation
         import stages_ext
         seg = stage_segments(tier, dump["crash"]["file"], "segments-crash", universe="3")
         stages_ext.segments_into(prop, seg, fnd, cov, sys.modules[__name__], "crash")
@@ -1212,8 +1266,9 @@ def do_replay(path):
         universe = str(rp.get("universe") or 16)
         events = os.path.join(d, "events.ndjson")
         mm = os.path.join(d, "mm.ndjson")
+        extra = ["--roguard", os.path.join(d, "rog")] if rp.get("facet") == "roguard" else []
         p = run([os.path.join(BIN, "run"), "--script", script, "--hasher", hasher, "--keyform", keyform,
-                 "--universe", universe, "--events", events, "--compare", "--mismatches", mm], 600,
+                 "--universe", universe, "--events", events, "--compare", "--mismatches", mm] + extra, 600,
                 ok_codes=None)
         print("run exit", p.returncode, p.stdout[-600:])
         if os.path.exists(mm):
